@@ -352,6 +352,10 @@ def expand_item(src, item_path, subs, log, tline):
                 raise LostAnchor('sub %s /%s/ in %s: no match' % (m.group(1), m.group(3), name))
             text = new
             log.append({'rule': m.group(1), 'item': name, 'count': cnt, 'what': 'sub /%s/ => %s' % (m.group(3), rep[:80])})
+        elif d == 'pubfields':
+            # R4: every named field becomes `pub` (Verus treats a struct with private fields as opaque in contracts)
+            text, cnt = re.subn(r'(\n\s+)(?!pub\b)(\w+\s*:\s)', r'\1pub \2', text)
+            log.append({'rule': 'R4', 'item': name, 'count': cnt, 'what': 'fields made pub'})
         elif d == 'nopub':
             text = re.sub(r'^pub(\s*\([^)]*\))?\s+', '', text)
         else:
